@@ -357,7 +357,9 @@ func (env *Env) quant(n *EQuant) Val {
 			guards = append(guards, typeConstraint(t, []Term{v}))
 		}
 	}
+	env.x.quantDepth++
 	body := c.evalBool(n.Body)
+	env.x.quantDepth--
 	if n.Forall {
 		return boolVal(Forall(vars, Implies(And(guards...), body)))
 	}
